@@ -69,7 +69,7 @@ def rand_dag(rng, n_in=None, n_gates=None, consts=0.15, xconst=0.0, max_fanin=4,
         if t in GATES1:
             k = 1
         else:
-            k = min(len(pool), rng.choice([1, 2, 2, 2, 3, 3, 4][: max(1, max_fanin + 2)]))
+            k = min(len(pool), rng.choice([1, 2, 2, 2, 3, 3, 4][: max(1, max_fanin + 2)] + list(range(5, max_fanin + 1))))
             k = max(1, min(k, max_fanin))
         # bias towards recent nodes to get depth
         cand = pool[-6:] if rng.random() < 0.6 and len(pool) > 6 else pool
